@@ -794,6 +794,32 @@ def f_namedtuple_isinstance():
     return kinds, [isinstance(e, _EvA) for e in evs], [isinstance(e, tuple) for e in evs], isinstance(evs[0], (_EvA, _EvB)), [e.source for e in evs], evs[1].key, type(evs[1]).__name__
 
 
+class _Tag(enum.IntFlag):
+    A = 0x11
+    B = 0x51
+    T = 0x80
+
+    @classmethod
+    def make(cls, a, t):
+        tag = cls.A if a else cls.B
+        if t:
+            tag |= cls.T
+        return tag
+
+    def split(self):
+        if _Tag.T in self:
+            return self ^ _Tag.T, True
+        return self, False
+
+
+def f_intflag():
+    x = _Tag.make(True, True)
+    k, t = _Tag(0x91).split()
+    k2, t2 = _Tag(0x51).split()
+    return (int(x), bytes((x,)), bytes((_Tag.make(False, False),)), k == _Tag.A, k is _Tag.A, t, k2 == _Tag.B, t2, int(_Tag.A | _Tag.T), _Tag.T in x, _Tag.B in _Tag.A,
+            isinstance(x, _Tag), isinstance(x, int), x == 0x91, (x & 0x80) != 0, int(_Tag(0x11)), x.value)
+
+
 def f_str_bits():
     s = bin(0b101101)[2:]
     return s, s.zfill(8), int(s[::-1], 2), s.count('1'), s.rfind('1'), s[:3] + '0' * 2, '{:08b}'.format(5), f'{5:08b}'[-3:], ''.join('1' if c == '0' else '0' for c in s)
